@@ -12,6 +12,7 @@ use star_frame::prelude::*;
 /// `(cenum 3)`
 #[derive(Copy, Clone, Debug, PartialEq, Eq, CheckedBitPattern, NoUninit, Align1)]
 #[repr(u8)]
+#[allow(dead_code)]
 pub enum Color {
     R,
     G,
